@@ -204,6 +204,8 @@ class AppRun:
             self.exc = e
             self.ret = "raised"
         self.returned_at = S.now
+        self.live_at_return = self.live_ping_actors()
+        self.open_at_return = len(self.open_transports())
         return self.ret
 
     # ---- observations ----
